@@ -263,3 +263,19 @@ PROFILE_BASIC = {
     'weights': {'create': 26, 'destroynow': 10, 'destroy': 5, 'assign': 14, 'remove': 9, 'set': 8, 'get': 6,
                 'clone': 3, 'update': 4, 'cleararch': 2, 'lock': 6, 'unlock': 9},
 }
+
+
+def corpus(prop):
+    """hand-written scripts aimed at case splits and at past defects; header shared"""
+    hdr = ['maxthreads %d' % MAXTHREADS, 'threads 1']
+    c = {}
+    c['C02'] = [
+        # plain-data component described at run time without a move function: swap-remove must relocate it (fixed defect)
+        ('dyn_no_move_swap_remove', hdr + ['reg 8 0', 'reg 9 0', 'update', 'create 0 8 9', 'create 0 8 9', 'create 0 8 9',
+                                          'set #0 8 101', 'set #1 8 102', 'set #2 8 103', 'set #0 9 201', 'set #1 9 202', 'set #2 9 203',
+                                          'destroynow 0 #0', 'getconst #2 8', 'getconst #2 9', 'destroynow 0 #1']),
+        # first / middle / last member, populations crossing storage chunks of 2
+        ('positions_chunks', hdr + ['chunkcap 2', 'reg 0', 'reg 2', 'update'] + ['create 0 0 2'] * 7 +
+         ['set #%d 0 %d' % (i, 10 + i) for i in range(7)] + ['destroynow 0 #0', 'destroynow 0 #3', 'destroynow 0 #6', 'assign 0 #1 3 5', 'remove 0 #2 0', 'clone #4']),
+    ]
+    return c.get(prop, [])
